@@ -206,6 +206,8 @@ def check_chain(cfg, acc):
         for k in range(n):
             insolver = base_plan.in_solver_at.get((name, k), False)
             for kind in VALUE_KINDS + EXC_KINDS:
+                if kind == "nan0" and cfg.get("armed_iterations", 3) == 1:
+                    continue  # quick tier: partial faults as inf0 only (nan0 in thorough)
                 if kind in EXC_KINDS and not insolver:
                     acc.count("not_applicable_exception_outside_solver")
                     continue
@@ -353,7 +355,7 @@ def check_config(cfg, acc):
 def configs(tier, seed):
     cfgs = []
     iters = 2 if tier == "quick" else 3
-    armed = 1 if tier == "quick" else 3
+    armed = 1 if tier == "quick" else 2
     depth = 2 if tier == "quick" else 3
     for spec, rec in DRIVERS:
         for tr in TRANSITIONS:
@@ -384,7 +386,7 @@ def run(tier, seed, acc):
                 "distinct (driver, callback, fault kind, resulting integrator-error pattern)",
         "exhaustive": True,
         "bounds": {"configs": len(cfgs), "iterations": 2 if tier == "quick" else 3,
-                   "iterations_with_faults": 1 if tier == "quick" else 3,
+                   "iterations_with_faults": 1 if tier == "quick" else 2,
                    "not_applicable_exception_outside_solver":
                        c.get("not_applicable_exception_outside_solver", 0),
                    "fault_not_reached": c.get("fault_not_reached", 0)},
